@@ -70,10 +70,13 @@ class MixState(object):
     self.playing.append([eid, values, 0])
     self.starts[eid] = self.n
 
-  def next(self, add_fn):
+  def next(self, add_fn, inflight=()):
     """
     All alternatives for the next sample: list of (output or END, state).
     ``add_fn(acc, item)`` adds an item to the running sum (exact types).
+    ``inflight``: (delta, values) of add() calls made *while this sample was
+    being computed* (by an event that schedules its successor): they are
+    pending from the next sample on and count for the end test of this one.
     """
     results = []
     for st in self._start_alternatives():
@@ -86,6 +89,8 @@ class MixState(object):
           p[2] = idx + 1
           alive.append(p)
       st.playing = alive
+      for delta, values in inflight:
+        st.add(delta, values)
       if not (st.keep or st.playing or st.pending):
         st.ended = True
         results.append((END, st))
